@@ -95,59 +95,75 @@ def run(ctx: Ctx):
                     invariants=("AttemptsBounded", "RepeatSame", "SilentWhenFailed", "OneOutstanding", "Consecutive",
                                 "ToldOnce", "WaitersFail", "ObserverTracksFailure", "SendEndsByTicks"),
                     required_actions=("Submit", "DoReact", "DoReact2", "DoReactLate", "Silence"))
-    D = 4 if ctx.quick else 6
-    jobs, metas = [], []
+    D = 4 if ctx.quick else 5
     alpha = list(REACTIONS)
-    for n in range(0, D + 1):
-        for script in itertools.product(alpha, repeat=n):
-            for wl, prefix in (("one", 0), ("three", 6), ("staggered", 7)):
-                if ctx.quick and n == D and wl == "staggered":
-                    continue
-                codes = (0x51, 11) if (len(jobs) % 3) else (0x80, 2)
-                jobs.append((wl, prefix, list(script), codes))
-                metas.append({"workload": wl, "prefix": prefix, "script": list(script), "codes": codes})
-    # full-budget scripts (reach the last attempt with every consuming reaction) and paired reactions
-    consuming = ("nak", "silence", "latecover", "latenak", "slownak")
-    A = int(maxatt)
-    for script in itertools.product(consuming, repeat=A):
-        for tail in ((), ("cover",), ("rstack",), ("error",)):
-            for wl, prefix in (("one", 0), ("three", 5)):
-                jobs.append((wl, prefix, list(script) + list(tail), (0x51, 11)))
-                metas.append({"workload": wl, "prefix": prefix, "script": list(script) + list(tail), "codes": (0x51, 11)})
-    for n in range(1, 3 if ctx.quick else 4):
-        for script in itertools.product(PAIRS + ("silence", "nak"), repeat=n):
-            for wl, prefix in (("three", 6),):
-                jobs.append((wl, prefix, list(script), (0x51, 11)))
-                metas.append({"workload": wl, "prefix": prefix, "script": [list(x) if isinstance(x, tuple) else x for x in script],
-                              "codes": (0x51, 11)})
-    # adaptive-timeout ramps: answers arriving just in time drive the timeout up; silence afterwards must still fire within the bounds
-    for up in range(1, 9):
-        for tail in (("silence",), ("silence", "silence"), ("slownak", "silence"), ("silence", "slowcover", "silence"), ("latecover",)):
-            for wl, prefix in (("three", 0), ("staggered", 3)):
-                script = ["slowcover"] * up + list(tail) + ["slowcover", "silence", "cover"]
-                jobs.append((wl, prefix, script, (0x51, 11)))
-                metas.append({"workload": wl, "prefix": prefix, "script": script, "codes": (0x51, 11)})
-    # all reset / error codes once
-    for c in range(256):
-        jobs.append(("three", 0, ["nak", "error", "silence", "rstack", "cover"], (c, (c * 7 + 3) % 256)))
-        metas.append({"workload": "three", "prefix": 0, "script": ["nak", "error", "silence", "rstack", "cover"],
-                      "codes": (c, (c * 7 + 3) % 256)})
-    # random long runs
-    rng = ctx.rng
-    for _ in range(100 if ctx.quick else 2000):
-        script = [rng.choice(alpha + ["cover"] * 6) for _ in range(rng.randint(10, 60))]
-        jobs.append(("staggered", rng.randrange(8), script, (rng.randrange(256), rng.randrange(256))))
-        metas.append({"workload": "staggered", "prefix": jobs[-1][1], "script": script, "codes": jobs[-1][3]})
-    traces = pmap(run_script, jobs)
-    ctx.evaluations = len(traces)
-    ctx.distinct_nontrivial = len({str(j) for j in jobs})
-    ctx.rule = (f"every script over {len(alpha)} per-attempt peer reactions up to length {D} x 3 workloads (one send; three queued sends "
-                "starting at frame number 6; sends submitted while the script runs starting at 7), every full-budget script of consuming "
-                "reactions, paired reactions in one read, all 256 reset/error codes, random long scripts; each followed by silence until every send ended; "
-                "distinct = distinct (workload, prefix, script, codes)")
-    ctx.add_sample({"meta": metas[len(metas) // 2], "trace": traces[len(metas) // 2]})
-    ctx.validate_traces("Trace_AshHost", traces, constants=consts, invariants=INV5 + INV4, metas=metas,
-                        label="sender", sig=sig)
+    core = ("cover", "nak", "silence", "slowcover", "error", "rstack")     # depth D + 1 over the reactions that change state most
+
+    def gen_jobs():
+        k = 0
+        for n in range(0, D + 1):
+            for script in itertools.product(alpha, repeat=n):
+                for wl, prefix in (("one", 0), ("three", 6), ("staggered", 7)):
+                    if ctx.quick and n == D and wl == "staggered":
+                        continue
+                    k += 1
+                    yield (wl, prefix, list(script), (0x51, 11) if (k % 3) else (0x80, 2))
+        if not ctx.quick:
+            for script in itertools.product(core, repeat=D + 1):
+                for wl, prefix in (("one", 0), ("three", 6), ("staggered", 7)):
+                    yield (wl, prefix, list(script), (0x51, 11))
+        # full-budget scripts (reach the last attempt with every consuming reaction) and paired reactions
+        consuming = ("nak", "silence", "latecover", "latenak", "slownak")
+        for script in itertools.product(consuming, repeat=int(maxatt)):
+            for tail in ((), ("cover",), ("rstack",), ("error",)):
+                for wl, prefix in (("one", 0), ("three", 5)):
+                    yield (wl, prefix, list(script) + list(tail), (0x51, 11))
+        for n in range(1, 3 if ctx.quick else 4):
+            for script in itertools.product(PAIRS + ("silence", "nak"), repeat=n):
+                yield ("three", 6, list(script), (0x51, 11))
+        # adaptive-timeout ramps: answers arriving just in time drive the timeout up; silence afterwards must still fire within the bounds
+        for up in range(1, 9):
+            for tail in (("silence",), ("silence", "silence"), ("slownak", "silence"), ("silence", "slowcover", "silence"), ("latecover",)):
+                for wl, prefix in (("three", 0), ("staggered", 3)):
+                    yield (wl, prefix, ["slowcover"] * up + list(tail) + ["slowcover", "silence", "cover"], (0x51, 11))
+        # all reset / error codes once
+        for c in range(256):
+            yield ("three", 0, ["nak", "error", "silence", "rstack", "cover"], (c, (c * 7 + 3) % 256))
+        # random long runs
+        rng = ctx.rng
+        for _ in range(100 if ctx.quick else 5000):
+            script = [rng.choice(alpha + ["cover"] * 6) for _ in range(rng.randint(10, 60))]
+            yield ("staggered", rng.randrange(8), script, (rng.randrange(256), rng.randrange(256)))
+
+    def meta_of(j):
+        return {"workload": j[0], "prefix": j[1], "script": [list(x) if isinstance(x, tuple) else x for x in j[2]], "codes": j[3]}
+    # streamed in batches: the thorough tier runs more than a million scripts
+    BATCH = 120000
+    total = 0
+    distinct = set()
+    it = gen_jobs()
+    while True:
+        jobs = list(itertools.islice(it, BATCH))
+        if not jobs:
+            break
+        traces = pmap(run_script, jobs)
+        metas = [meta_of(j) for j in jobs]
+        if total == 0:
+            ctx.add_sample({"meta": metas[len(metas) // 2], "trace": traces[len(metas) // 2]})
+        total += len(jobs)
+        distinct.update(hash(str(j)) for j in jobs)
+        ctx.validate_traces("Trace_AshHost", traces, constants=consts, invariants=INV5 + INV4, metas=metas,
+                            label="sender", sig=sig)
+        del traces, metas, jobs
+        if len(ctx.violations) > 200:
+            break
+    ctx.evaluations = total
+    ctx.distinct_nontrivial = len(distinct)
+    ctx.rule = (f"every script over {len(alpha)} per-attempt peer reactions (incl. answers in the timer's own loop iteration and answers 1 ms before the "
+                f"timer) up to length {D} x 3 workloads (one send; three queued sends starting at frame number 6; sends submitted while the script runs "
+                f"starting at 7){'' if ctx.quick else f', every script of length {D + 1} over {len(core)} core reactions'}, every full-budget script of consuming "
+                "reactions, paired reactions in one read, adaptive-timeout ramps, all 256 reset/error codes, random long scripts; each followed by silence "
+                "until every send ended; distinct = distinct (workload, prefix, script, codes)")
     ctx.exhaustive = False
     ctx.assumptions += ["virtual-time event loop (bv.vloop) and rebinding of the `time` name in bellows.ash",
                         "ACK timeout bounds 400..3200 ms pinned from the ASH text; the retry budget is read from the tree (ACK_TIMEOUTS)"]
